@@ -1,1 +1,331 @@
 // Kani contract harnesses for /repo/arrow-data/src/byte_view.rs (child module: sees private items via super::)
+//
+// C08/C09: `validate_binary_view` / `validate_string_view` accept exactly the views that are
+// well-formed per the Arrow "Variable-size Binary View Layout"; `wf_view` below is that rule written
+// on the 16 little-endian bytes of the view, independently of the code.
+// Stubs: alloc::fmt::format -> stub_format (error messages are not part of any contract).
+use super::*;
+#[path = "/verif/kani/support/spec.rs"]
+mod spec;
+use spec::*;
+
+/// Arrow format: bytes 0..4 = length (little endian). length <= 12: bytes 4..4+length are the
+/// data, all remaining bytes are zero padding. length > 12: bytes 4..8 = first four data bytes
+/// (prefix), bytes 8..12 = buffer index, bytes 12..16 = offset; the index designates an existing
+/// data buffer, offset + length lies inside it, and the prefix equals the data's first 4 bytes.
+fn wf_view(v: u128, bufs: &[&[u8]]) -> bool {
+    let b = v.to_le_bytes();
+    let len = u32::from_le_bytes([b[0], b[1], b[2], b[3]]) as usize;
+    if len <= 12 {
+        // every byte after the data is zero (loop-free so that harness unwind bounds stay small)
+        (len > 0 || b[4] == 0)
+            && (len > 1 || b[5] == 0)
+            && (len > 2 || b[6] == 0)
+            && (len > 3 || b[7] == 0)
+            && (len > 4 || b[8] == 0)
+            && (len > 5 || b[9] == 0)
+            && (len > 6 || b[10] == 0)
+            && (len > 7 || b[11] == 0)
+            && (len > 8 || b[12] == 0)
+            && (len > 9 || b[13] == 0)
+            && (len > 10 || b[14] == 0)
+            && (len > 11 || b[15] == 0)
+    } else {
+        let idx = u32::from_le_bytes([b[8], b[9], b[10], b[11]]) as usize;
+        let off = u32::from_le_bytes([b[12], b[13], b[14], b[15]]) as usize;
+        if idx >= bufs.len() {
+            return false;
+        }
+        let d = bufs[idx];
+        if off + len > d.len() {
+            return false; // u32 + u32 cannot overflow usize
+        }
+        d[off] == b[4] && d[off + 1] == b[5] && d[off + 2] == b[6] && d[off + 3] == b[7]
+    }
+}
+/// the bytes a (well-formed) view designates: (source, start, len) with source 0 = the view itself
+fn view_data(v: u128) -> (usize, usize, usize) {
+    let b = v.to_le_bytes();
+    let len = u32::from_le_bytes([b[0], b[1], b[2], b[3]]) as usize;
+    if len <= 12 {
+        (0, 4, len)
+    } else {
+        let idx = u32::from_le_bytes([b[8], b[9], b[10], b[11]]) as usize;
+        let off = u32::from_le_bytes([b[12], b[13], b[14], b[15]]) as usize;
+        (1 + idx, off, len)
+    }
+}
+
+// Contract (C08/C09): for ONE arbitrary 128-bit view and data buffers of the given concrete lengths
+// with arbitrary contents: validate_binary_view(&[view], buffers) is Ok  <=>  wf_view(view, buffers).
+// Both directions (acceptance implies the format predicate; no over-rejection); it never panics and
+// never reads outside the buffers (CBMC checks), whatever the view says.
+fn binary_view_case<const L0: usize, const L1: usize, const TWO: bool>() {
+    let v: u128 = kani::any();
+    let d0: [u8; L0] = kani::any();
+    let d1: [u8; L1] = kani::any();
+    let b0 = Buffer::from_slice_ref(d0);
+    let b1 = Buffer::from_slice_ref(d1);
+    let (ok, wf) = if TWO {
+        let bufs = [b0, b1];
+        let r = validate_binary_view(&[v], &bufs);
+        let ok = r.is_ok();
+        std::mem::forget(r);
+        (ok, wf_view(v, &[&d0, &d1]))
+    } else {
+        let bufs = [b0];
+        let r = validate_binary_view(&[v], &bufs);
+        let ok = r.is_ok();
+        std::mem::forget(r);
+        (ok, wf_view(v, &[&d0]))
+    };
+    assert!(ok == wf);
+    let len = v as u32;
+    let idx = (v >> 64) as u32;
+    kani::cover!(ok && len == 0);
+    kani::cover!(ok && len == 12);
+    kani::cover!(ok && len == 7);
+    kani::cover!(ok && len > 12 && idx == 0);
+    kani::cover!(!TWO || (ok && len > 12 && idx == 1));
+    kani::cover!(!ok && len <= 12); // non-zero padding
+    kani::cover!(!ok && len > 12 && (idx as usize) < 1 + TWO as usize); // bad range or prefix
+    kani::cover!(!ok && len > 12 && idx == u32::MAX); // bad buffer index
+}
+// @unit name=binary_view_iff_wf_1x16 props=C08,C09 kind=bounded bound=1_view_1_buffer_of_16_bytes fns=validate_binary_view,validate_view_impl tier=quick mem=3 timeout=300
+#[kani::proof]
+#[kani::unwind(15)]
+#[kani::stub(alloc::fmt::format, stub_format)]
+fn binary_view_iff_wf_1x16() {
+    binary_view_case::<16, 0, false>()
+}
+// @unit name=binary_view_iff_wf_2x20_13 props=C08,C09 kind=bounded bound=1_view_2_buffers_of_20_and_13_bytes fns=validate_binary_view,validate_view_impl tier=quick mem=3 timeout=400
+#[kani::proof]
+#[kani::unwind(15)]
+#[kani::stub(alloc::fmt::format, stub_format)]
+fn binary_view_iff_wf_2x20_13() {
+    binary_view_case::<20, 13, true>()
+}
+// @unit name=binary_view_iff_wf_2x0_14 props=C08,C09 kind=bounded bound=1_view_2_buffers_of_0_and_14_bytes fns=validate_binary_view,validate_view_impl tier=quick mem=3 timeout=400
+#[kani::proof]
+#[kani::unwind(15)]
+#[kani::stub(alloc::fmt::format, stub_format)]
+fn binary_view_iff_wf_2x0_14() {
+    let v: u128 = kani::any();
+    let d1: [u8; 14] = kani::any();
+    let bufs = [Buffer::from_slice_ref([0u8; 0]), Buffer::from_slice_ref(d1)];
+    let r = validate_binary_view(&[v], &bufs);
+    let ok = r.is_ok();
+    std::mem::forget(r);
+    let e: [u8; 0] = [];
+    assert!(ok == wf_view(v, &[&e, &d1]));
+    kani::cover!(ok && v as u32 == 14);
+    kani::cover!(!ok && v as u32 == 13 && (v >> 64) as u32 == 0); // empty buffer: nothing fits
+}
+
+// Contract (C08): zero views are trivially valid; two views are valid iff each one is (the loop
+// validates every element, and an early invalid view is not masked by a later valid one).
+// @unit name=binary_view_two_views props=C08,C09 kind=bounded bound=2_views_1_buffer_of_14_bytes fns=validate_binary_view,validate_view_impl tier=quick mem=3 timeout=400
+#[kani::proof]
+#[kani::unwind(15)]
+#[kani::stub(alloc::fmt::format, stub_format)]
+fn binary_view_two_views() {
+    let vs: [u128; 2] = kani::any();
+    let d0: [u8; 14] = kani::any();
+    let bufs = [Buffer::from_slice_ref(d0)];
+    let r0 = validate_binary_view(&[], &bufs);
+    assert!(r0.is_ok());
+    let r = validate_binary_view(&vs, &bufs);
+    let ok = r.is_ok();
+    std::mem::forget(r);
+    std::mem::forget(r0);
+    assert!(ok == (wf_view(vs[0], &[&d0]) && wf_view(vs[1], &[&d0])));
+    kani::cover!(ok);
+    kani::cover!(!ok && wf_view(vs[0], &[&d0]));
+    kani::cover!(!ok && wf_view(vs[1], &[&d0]));
+}
+
+/// independent UTF-8 well-formedness (Unicode standard, table 3-7), over s[start..start+len]
+fn is_utf8(s: &[u8], start: usize, len: usize) -> bool {
+    let mut i = 0;
+    while i < len {
+        let b0 = s[start + i];
+        let n = if b0 < 0x80 {
+            1
+        } else if b0 >= 0xC2 && b0 <= 0xDF {
+            2
+        } else if b0 >= 0xE0 && b0 <= 0xEF {
+            3
+        } else if b0 >= 0xF0 && b0 <= 0xF4 {
+            4
+        } else {
+            return false;
+        };
+        if i + n > len {
+            return false;
+        }
+        if n >= 2 {
+            let b1 = s[start + i + 1];
+            let (lo, hi) = match b0 {
+                0xE0 => (0xA0, 0xBF),
+                0xED => (0x80, 0x9F),
+                0xF0 => (0x90, 0xBF),
+                0xF4 => (0x80, 0x8F),
+                _ => (0x80, 0xBF),
+            };
+            if b1 < lo || b1 > hi {
+                return false;
+            }
+        }
+        if n >= 3 {
+            let b2 = s[start + i + 2];
+            if b2 < 0x80 || b2 > 0xBF {
+                return false;
+            }
+        }
+        if n == 4 {
+            let b3 = s[start + i + 3];
+            if b3 < 0x80 || b3 > 0xBF {
+                return false;
+            }
+        }
+        i += n;
+    }
+    true
+}
+
+// Contract (C08/C09): validate_string_view on one arbitrary INLINE view whose length field is the
+// concrete value L (one harness per L; all other 96 bits — data and padding — arbitrary):
+// Ok <=> wf_view /\ the L designated bytes are valid UTF-8 (independent validator `is_utf8`).
+fn string_view_inline_case<const L: u32>() {
+    let hi: u128 = kani::any();
+    let v: u128 = (hi << 32) | L as u128;
+    let bufs: [Buffer; 0] = [];
+    let r = validate_string_view(&[v], &bufs);
+    let ok = r.is_ok();
+    std::mem::forget(r);
+    let b = v.to_le_bytes();
+    let (_, start, len) = view_data(v);
+    assert!(len == L as usize && start == 4);
+    let e: [&[u8]; 0] = [];
+    assert!(ok == (wf_view(v, &e) && is_utf8(&b, start, len)));
+    kani::cover!(L < 2 || (ok && b[4] >= 0x80));
+    kani::cover!(ok && b[4] < 0x80);
+    kani::cover!(!ok && wf_view(v, &e)); // rejected for UTF-8 only
+    kani::cover!(!ok && is_utf8(&b, start, len)); // rejected for padding only
+}
+macro_rules! string_view_inline_unit {
+    ($name:ident, $l:expr) => {
+        #[kani::proof]
+        #[kani::unwind(7)]
+        #[kani::stub(alloc::fmt::format, stub_format)]
+        fn $name() {
+            string_view_inline_case::<$l>()
+        }
+    };
+}
+// @unit name=string_view_inline_iff_wf_utf8_len1 props=C08,C09 kind=bounded bound=1_inline_view_length=1 fns=validate_string_view,validate_view_impl tier=thorough mem=4 timeout=900
+string_view_inline_unit!(string_view_inline_iff_wf_utf8_len1, 1);
+// @unit name=string_view_inline_iff_wf_utf8_len2 props=C08,C09 kind=bounded bound=1_inline_view_length=2 fns=validate_string_view,validate_view_impl tier=thorough mem=4 timeout=900
+string_view_inline_unit!(string_view_inline_iff_wf_utf8_len2, 2);
+// @unit name=string_view_inline_iff_wf_utf8_len3 props=C08,C09 kind=bounded bound=1_inline_view_length=3 fns=validate_string_view,validate_view_impl tier=thorough mem=4 timeout=900
+string_view_inline_unit!(string_view_inline_iff_wf_utf8_len3, 3);
+// @unit name=string_view_inline_iff_wf_utf8_len4 props=C08,C09 kind=bounded bound=1_inline_view_length=4 fns=validate_string_view,validate_view_impl tier=thorough mem=4 timeout=900
+string_view_inline_unit!(string_view_inline_iff_wf_utf8_len4, 4);
+
+// Contract (C08/C09): no over-rejection on real strings — a view built (per the format) for the
+// UTF-8 encoding of 1..=3 arbitrary chars, inline (<= 12 bytes) is accepted by validate_string_view;
+// and a non-inline view over a buffer holding 13 bytes made of those chars' encoding padded with
+// ASCII is accepted iff its prefix matches.
+// NOT CONFIRMED yet (not run to completion under load).
+// @unit name=string_view_accepts_real_strings props=C08,C09 kind=bounded bound=3_chars_inline_or_13_byte_buffer fns=validate_string_view,validate_view_impl,ByteView::as_u128 tier=thorough mem=4 timeout=900
+#[kani::proof]
+#[kani::unwind(15)]
+#[kani::stub(alloc::fmt::format, stub_format)]
+fn string_view_accepts_real_strings() {
+    let cs: [char; 3] = kani::any();
+    let mut enc = [0u8; 13];
+    let mut n = 0;
+    for c in cs.iter() {
+        n += c.encode_utf8(&mut enc[n..]).len();
+    }
+    // n in 3..=12 bytes of valid UTF-8 followed by zeros (ASCII NUL), 13 bytes in total
+    if kani::any() {
+        // inline view of the first n bytes
+        let mut b = [0u8; 16];
+        b[0] = n as u8;
+        let mut i = 0;
+        while i < 12 {
+            if i < n {
+                b[4 + i] = enc[i];
+            }
+            i += 1;
+        }
+        let v = u128::from_le_bytes(b);
+        let bufs: [Buffer; 0] = [];
+        let r = validate_string_view(&[v], &bufs);
+        assert!(r.is_ok());
+        std::mem::forget(r);
+        kani::cover!(n == 12);
+        kani::cover!(n == 3);
+    } else {
+        // 13-byte string in buffer 0, arbitrary prefix field
+        let prefix: [u8; 4] = kani::any();
+        let bv = ByteView { length: 13, prefix: u32::from_le_bytes(prefix), buffer_index: 0, offset: 0 };
+        let bufs = [Buffer::from_slice_ref(enc)];
+        let r = validate_string_view(&[bv.as_u128()], &bufs);
+        let ok = r.is_ok();
+        std::mem::forget(r);
+        assert!(ok == (prefix[0] == enc[0] && prefix[1] == enc[1] && prefix[2] == enc[2] && prefix[3] == enc[3]));
+        kani::cover!(ok);
+        kani::cover!(!ok);
+    }
+}
+
+// Contract (C08): a non-inline string view over bytes that are NOT valid UTF-8 is rejected even
+// when range and prefix are fine (buffer of 13 arbitrary bytes, view = whole buffer, correct prefix).
+// NOT CONFIRMED yet (not run to completion under load).
+// @unit name=string_view_rejects_bad_utf8_in_buffer props=C08,C09 kind=bounded bound=1_view_over_13_byte_buffer fns=validate_string_view,validate_view_impl tier=thorough mem=6 timeout=900
+#[kani::proof]
+#[kani::unwind(15)]
+#[kani::stub(alloc::fmt::format, stub_format)]
+fn string_view_rejects_bad_utf8_in_buffer() {
+    let d: [u8; 13] = kani::any();
+    let bv = ByteView { length: 13, prefix: u32::from_le_bytes([d[0], d[1], d[2], d[3]]), buffer_index: 0, offset: 0 };
+    let bufs = [Buffer::from_slice_ref(d)];
+    let r = validate_string_view(&[bv.as_u128()], &bufs);
+    let ok = r.is_ok();
+    std::mem::forget(r);
+    assert!(ok == is_utf8(&d, 0, 13));
+    kani::cover!(ok);
+    kani::cover!(!ok);
+}
+
+// Contract (C08): `ByteView::from(u128)` and `as_u128` / `Into<u128>` are inverse bijections, and the
+// field placement is the format's: length = bytes 0..4, prefix = 4..8, buffer_index = 8..12,
+// offset = 12..16 of the little-endian view. `new`/`with_buffer_index`/`with_offset` set exactly
+// their field. For all 2^128 values / all field values.
+// @unit name=byte_view_u128_bijection props=C08 kind=complete fns=ByteView::from,ByteView::as_u128,u128::from<ByteView>,ByteView::new,ByteView::with_buffer_index,ByteView::with_offset tier=quick mem=2 timeout=120
+#[kani::proof]
+#[kani::unwind(6)]
+fn byte_view_u128_bijection() {
+    let v: u128 = kani::any();
+    let bv = ByteView::from(v);
+    assert!(bv.as_u128() == v);
+    let back: u128 = bv.into();
+    assert!(back == v);
+    let b = v.to_le_bytes();
+    assert!(bv.length == u32::from_le_bytes([b[0], b[1], b[2], b[3]]));
+    assert!(bv.prefix == u32::from_le_bytes([b[4], b[5], b[6], b[7]]));
+    assert!(bv.buffer_index == u32::from_le_bytes([b[8], b[9], b[10], b[11]]));
+    assert!(bv.offset == u32::from_le_bytes([b[12], b[13], b[14], b[15]]));
+    let (l, p, i, o): (u32, u32, u32, u32) = (kani::any(), kani::any(), kani::any(), kani::any());
+    let w = ByteView { length: l, prefix: p, buffer_index: i, offset: o };
+    let r = ByteView::from(w.as_u128());
+    assert!(r.length == l && r.prefix == p && r.buffer_index == i && r.offset == o);
+    kani::assume(l > 12);
+    let n = ByteView::new(l, &p.to_le_bytes()).with_buffer_index(i).with_offset(o);
+    assert!(n.length == l && n.prefix == p && n.buffer_index == i && n.offset == o);
+    let n0 = ByteView::new(l, &p.to_le_bytes());
+    assert!(n0.buffer_index == 0 && n0.offset == 0);
+    kani::cover!(v > u64::MAX as u128);
+}
